@@ -714,6 +714,23 @@ def reads_directly(t, pnames, targets=()):
             return seen[x]
         seen[x] = False
         r = False
+        if x.op == "discr":
+            # which constructor a value was built with says nothing about its payload: `match opt { Some(m) => .., None => .. }`
+            # over Some(message) / None tests the verdict of the step that produced the message, not the message
+            def dis(y):
+                while y.op in ("ref", "deref"):
+                    y = y.a[0]
+                if y.op == "agg" or y in targets:
+                    return False
+                if y.op == "phi":
+                    return any(dis(z) for z in y.a[0])
+                if y.op == "call" and B.cname(y) in ("FromResidual::from_residual",):
+                    return False
+                return rec(y)
+
+            r = dis(x.a[0])
+            seen[x] = r
+            return r
         if x in targets:
             r = True
         elif x.op == "param":
